@@ -145,6 +145,11 @@ def run(chk, failed):
         lines.append(ln)
         parsed.append(G.parse_any(ln))
         tags.append("conf")
+    for _ in range(int(300 * scale)):
+        ln = G.fmt_hcall(G.gen_hcall(chk.rng))
+        lines.append(ln)
+        parsed.append(G.parse_any(ln))
+        tags.append("hcall")
     for _ in range(int(120 * (scale if not chk.thorough else 8.0))):
         ln = G.fmt_seq(G.gen_seq(chk.rng, G.shipped_templates(C.REPO)))
         lines.append(ln)
@@ -178,7 +183,14 @@ def run(chk, failed):
     for i, (ln, c, tg, a, b) in enumerate(zip(lines, parsed, tags, impl, model)):
         if c["partitions"]:
             chk.nontrivial.add(C.case_hash(ln))
-        if c.get("kind") == "seq":
+        if c.get("kind") == "hcall":
+            chk.count("hcall:" + c["helper"])
+            multi = {}
+            for p in (c["partitions"] or []):
+                multi.setdefault(p["topic"], set()).add(p["status"])
+            if any(len(v) > 1 for v in multi.values()):
+                chk.count("hcall:topic-in-several-states")
+        elif c.get("kind") == "seq":
             chk.count("seq:steps=%d" % len(c["steps"]))
             chk.count("seq:notifications", len(G.seq_expected(c)))
             chk.count("seq:impl=" + ("mismatch" if ("MISMATCH" in a or a.startswith("SEQ-")) else "agrees"))
@@ -195,7 +207,7 @@ def run(chk, failed):
         chk.count("template:" + c["template"])
         chk.count("status:" + G.STATUS.get(c["status"], "other"))
         chk.count("mode:" + tg)
-        if c.get("kind") == "seq":
+        if c.get("kind") in ("seq", "hcall"):
             pass
         elif c.get("kind") != "conf":
             chk.count("impl:" + a.split(" ")[0] + ("" if " " not in a else " " + a.split(" ")[1]))
@@ -216,7 +228,14 @@ def run(chk, failed):
                     "impl_output": a, "model_output": b, "oracle_verdict": fails,
                     "decoded": (_decode_diff(next((e for e in a.split(" | ") if "MISMATCH" in e), ""))
                                 if c.get("kind") == "seq" else None),
-                    "broken": ("C20: the data a module hands to its templates offers the cluster, group, event id, INCIDENT start time, "
+                    "template_text": ({"topicsbystatus": "{{topicsbystatus .Result.Partitions | jsonencoder}}",
+                                       "partitioncounts": "{{partitioncounts .Result.Partitions | jsonencoder}}",
+                                       "maxlag": "{{maxlag .Result.Maxlag}}",
+                                       "arith": "{{add .Result.TotalPartitions 7}} {{minus ...}} {{multiply ...}} {{divide ...}}"}.get(c.get("helper"))
+                                      if c.get("kind") == "hcall" else None),
+                    "broken": ("C20: the documented helper functions offered to templates return their documented values "
+                               "(topics_by_status_spec / partition_count_step; Tmpl.apply_fn)" if c.get("kind") == "hcall" else
+                               "C20: the data a module hands to its templates offers the cluster, group, event id, INCIDENT start time, "
                                "CONFIGURED extras and the status, whatever was notified before (C20_module_data_offers_configured), "
                                "and the templates render on it" if c.get("kind") == "seq" else
                                "C20: every configured module executes the template its template-open / template-close key names "
@@ -309,7 +328,7 @@ def replay(path):
         return 1 if fails else 0
     pre(chk)
     C.build_coq()
-    if case.startswith("conf ") or case.startswith("seq "):
+    if case.startswith("conf ") or case.startswith("seq ") or case.startswith("hcall "):
         impl, model, mism = chk.differential("tmpl", "tmpl", "TestVerifProbeTmpl", [case], name="replay")
     else:
         impl, model, mism = chk.differential("tmpl", "tmpl", "TestVerifProbeTmpl", [case], name="replay",
